@@ -145,13 +145,26 @@ func (p *Packer) Pack(src string, w io.Writer) (*Meta, error) {
 	// Track the metadata details as we go.
 	meta := &Meta{}
 
-	info, err := os.Lstat(src)
-	if err != nil {
+	if _, err := os.Lstat(src); err != nil {
 		return nil, err
 	}
 
-	// Check if the root (src) is a symlink
-	if info.Mode()&os.ModeSymlink != 0 {
+	// Check if the root (src) is a symlink, and follow it until it is not:
+	// the walk below does not descend into a root that is a link. The path
+	// is cleaned first, because with a trailing separator or "/." Lstat
+	// reports on the link's target instead of on the link.
+	for hops := 0; ; hops++ {
+		src = filepath.Clean(src)
+		info, err := os.Lstat(src)
+		if err != nil {
+			return nil, err
+		}
+		if info.Mode()&os.ModeSymlink == 0 {
+			break
+		}
+		if hops >= maxSymlinkHops {
+			return nil, fmt.Errorf("failed to resolve symlink %q: too many levels of symbolic links", src)
+		}
 		src, err = os.Readlink(src)
 		if err != nil {
 			return nil, err
